@@ -19,9 +19,18 @@ WBS.critical_path through the call graph, so renaming its private methods does n
   C12.pure         writes*(WBS.critical_path) is empty: every store in its reach goes to objects the call allocates
   C12.inherit      arcs come from predecessors of the task *and of all its ancestors*, each expanded to its leaves
 
-Not decided: exactness of the longest-path result as a number (magnitude of the tolerance, float rounding inside the
-folds), acyclicity handling (the property quantifies over acyclic WBSs), the end_date != None mode (not used by
-WBS.critical_path), tasks outside the WBS reached through predecessors (F18, no rule).
+Not decided: exactness of the longest-path result as a number (magnitude of the tolerance - a constant above 1e-3 is
+reported UNDECIDED -, float rounding inside the folds), "never empty when the WBS has a leaf" (follows from the clauses,
+not checked on its own), acyclicity handling (the property quantifies over acyclic WBSs), the end_date != None mode
+(not used by WBS.critical_path), tasks outside the WBS reached through predecessors (F18, no rule), a leaf-expansion helper
+that the relation evaluator cannot verify (UNDECIDED, never a verdict).
+
+Engine notes (worked around here, sa/* untouched):
+  * sa.effects drops writes to objects allocated by the call chain; the calculator is such an object but the tasks it
+    holds are not, so C12.pure also judges every call edge that leaves alg/critical_path.py with a non-empty write summary
+    at the call site (receiver / argument provenance inside the calculator), and every direct write by receiver type.
+  * list building code (`x = []; for ..: x += f(p)`; comprehensions; `while t: .. t = t.parent`) is abstracted by the
+    relation-path evaluator of rules/c12_util.py (RelEval), max/min accumulators by recognise_fold; both are local helpers.
 """
 from __future__ import annotations
 
@@ -128,7 +137,6 @@ def _before_in_iteration(cfg, a, b, hdr) -> bool:
 
 # ---------------------------------------------------------------------------------------------------------------------
 def check(ctx):
-    prog = ctx.prog
     ctx.assume("the WBS is acyclic (quantifier of C12); Task.all_parents / predecessors / children are the relations of C01")
     ctx.assume("term expansion assumes no aliasing writes between a definition and its use inside one function")
     try:
@@ -673,8 +681,6 @@ def _releval(ctx, R: Roles, model) -> RelEval:
     return model['releval']
 
 
-REQ_OWN = ('predecessors', 'leaves')
-REQ_ANC = ('all_parents', 'predecessors', 'leaves')
 
 
 def _inherit_registered(ctx, R: Roles, model, o_inh, o_reg):
@@ -1033,7 +1039,6 @@ def _passes(ctx, R: Roles, model, o, o_eq):
         return bool(match(f"{node_cls}()", v))
 
     sink = None
-    sink_ok = False
     for c in R.calls_to(calc, con):
         b = bind_args(c, con)
         s, e, u = b.get(p_start), b.get(p_end), b.get(p_units)
@@ -1059,7 +1064,6 @@ def _passes(ctx, R: Roles, model, o, o_eq):
             if uc != 0:
                 o.refute(calc, c, c, f"link to the common sink has length `{src(u)}` instead of 0")
             elif flt == OUT:
-                sink_ok = True
                 o.site(calc, c, f"every node without outgoing links is joined to the common sink `{src(e)}` by a 0-length link")
             elif flt == IN:
                 o.refute(calc, c, c, f"the common sink is attached to the nodes without INCOMING links (`{IN}` empty): chain ends "
@@ -1136,7 +1140,14 @@ def _passes(ctx, R: Roles, model, o, o_eq):
     lv = sel['link_var']
     want = sorted([(+1, f"{lv}.end.{LF}"), (-1, f"{lv}.start.{ES}"), (-1, f"{lv}.units")])
     tests = []
+    consts = {}
+    for st_ in R.mod.tree.body:
+        if isinstance(st_, ast.Assign) and len(st_.targets) == 1 and isinstance(st_.targets[0], ast.Name) \
+                and facts.const_num(st_.value) is not None:
+            consts[st_.targets[0].id] = st_.value
+    from sa.flow import subst
     for t, p in sel['conds']:
+        t = subst(t, consts) if consts else t       # module level numeric constants (EPS = 1e-9)
         tt = _tolerance_test(t, p, lv)
         if tt is not None and not any(isinstance(n, ast.Attribute) and n.attr in (ES, LF) for n in ast.walk(tt[1])):
             tt = None       # looks at the link but not at its times: not the slack test
@@ -1231,7 +1242,6 @@ def _check_pass(ctx, R, o, p: Func, what: str, field, op, links, far, sign, othe
         o.undecided(p, e.node if hasattr(e.node, 'lineno') else st, e.node if isinstance(e.node, ast.AST) else st,
                     f"{what} pass: " + e.msg)
         return
-    other = 'min' if op == 'max' else 'max'
     lv = fo.var
     bad = False
     if fo.op != op:
@@ -1295,7 +1305,6 @@ def _check_pass(ctx, R, o, p: Func, what: str, field, op, links, far, sign, othe
                (", 0 at sources" if what == 'forward' else f", {node_p}.{ES} at the sink"))
     # recursion before the read
     recs = R.calls_to(p, p)
-    hdr = cfg.node_of(fo.loop) if isinstance(fo.loop, ast.For) else None
     ex = Expander(prog, p, ctx.typer, inline=False)
     sn = cfg.node_of(st)
     verdicts = []
